@@ -683,6 +683,10 @@ func run(prop, tier string, seed int64) int {
 			ncpu = n
 		}
 	}
+	if v := os.Getenv("VERIF_ONLY_BUILDS"); v != "" {
+		// investigation aid (not used by any registered command): restrict the run to some build variants
+		m.Builds = strings.Split(v, ",")
+	}
 	r := &runner{prop: prop, tier: tier, seed: seed, m: m, outDir: outDir, nshards: ncpu}
 	var outs []childOut
 	for _, variant := range m.Builds {
